@@ -51,6 +51,15 @@ fn run(r: &mut Run) -> Result<(), MachineryError> {
             cx.set_input(&s);
             check_text(&s, cx);
         }
+    })?;
+    // two unusual characters as margin / blank line / content
+    r.range("C18/representative-pairs", &format!("{}; each pair (x,y) in the texts \"xy a\\nxy b\", \"xy a\\nx b\", \" a\\nxy\\n b\", \"yxa\\nxyb\", \"x\\ty\\n\\tx\"", reps::pair_desc(t)), reps::pair_space(t), move |i, cx| {
+        let (x, y) = reps::pair_at(t, i);
+        cx.seq = idx_seq(i);
+        for s in [format!("{x}{y} a\n{x}{y} b"), format!("{x}{y} a\n{x} b"), format!(" a\n{x}{y}\n b"), format!("{y}{x}a\n{x}{y}b"), format!("{x}\t{y}\n\t{x}")] {
+            cx.set_input(&s);
+            check_text(&s, cx);
+        }
     })
 }
 
